@@ -164,6 +164,9 @@ func (rc *RunCtx) Finish() {
 	if rc.Coverage == nil {
 		rc.Coverage = map[string]any{}
 	}
+	if knownLines == nil {
+		knownLines = []string{}
+	}
 	rc.Coverage["known_findings_reported"] = knownLines
 	ev := map[string]any{
 		"property_id": rc.ID,
